@@ -1,5 +1,11 @@
 """C10 - worker hand-over and soft stop lose no listener and cut no request.
 
+(Response delivery, added after the seeded defect C01-11: Handover.tla's slots also go through respStreaming /
+respTail (H1 and H2); drive_handover parks clients in the middle of a large response - tail held by the worker
+behind a full socket or exhausted H2 windows with the backend gone, or a slow backend still sending - and
+Trace_Handover.tla rejects a response that is cut, or short but clean, inside the graceful deadline. The
+deviation QuiescedBeforeFlushed is the self-test of that part of P_C10b.)
+
 Spec: spec/Handover.tla (protocol), spec/ScmManifest.tla (size arithmetic of the fd hand-off message),
 spec/HandoverCodec.tla (generator/oracle of listener sets), spec/Trace_Handover.tla (trace validation).
 
@@ -379,7 +385,9 @@ def run(tier, replay=None):
     rep.cov["rule"] = ("codec: one listener set per size 0..%d x 7 address-class patterns%s, each built from real bound sockets, "
                        "sent through a real ScmSocket pair and compared pair by pair (address, same socket inode, getsockname, "
                        "bucket, order) with the size TLC predicts; protocol: distinct scenarios (mode, order of master steps, crash "
-                       "point, listener set, stage x partial x release moment of two parked connections), each run recorded on "
+                       "point, listener set, stage x partial x release moment of two parked connections; for a connection parked in the "
+                       "middle of its response: framing cl/chunked/close-delimited, backend closing or kept alive, H2 stream order, "
+                       "tail held behind exhausted windows or behind a full socket), each run recorded on "
                        "real worker threads and decided by TLC against Trace_Handover.tla. distinct_nontrivial = distinct codec "
                        "cases + distinct scenario descriptors" % (consts["maxfds"], " x 6 protocol splits" if thorough else " (split picked by seed)"))
     rep.assumptions += [
@@ -387,6 +395,8 @@ def run(tier, replay=None):
         "a worker 'dies' by losing its command channel; its thread then leaves client sockets open, which a dead process would not: hung connections on a killed worker are treated as cut",
         "which worker served a request is known from distinct mock backends configured for the old and the new worker",
         "clients and backends are prompt (backend delay 350 ms); client time-outs are 10 s, the acknowledgement is awaited 20 s",
+        "response delivery: the worker's socket towards a client that does not read is given a small fixed send buffer by the harness (setsockopt from the same process; it stands for a host with a small tcp_wmem): left to itself Linux grows that buffer to megabytes and no tail ever waits in the worker's own buffer. Descriptors of the worker's sockets are only read (queue lengths) to steer and to measure a scenario, never for a verdict",
+        "response delivery: the parked client never writes while it reads the end of a response (one WINDOW_UPDATE releases a tail held behind exhausted H2 windows, before anything is read): a write that reaches the worker after its close makes the kernel reset the connection and drop unsent data - the TCP reset problem of any close without lingering, not exercised here",
         "addresses of the longest textual class (zoned link-local IPv6, 58 characters) cannot be bound: for them the descriptor is a real socket but only its identity (inode), not getsockname, is compared",
     ]
     rep.finish()
